@@ -1385,7 +1385,7 @@ def _parse_output_keys(result: dict, lit: LineIterator) -> dict:
     if "stderr" in result:
         extra_dict["stderr"] = result["stderr"]
     if "stdout" in result:
-        extra_dict["stderr"] = result["stdout"]
+        extra_dict["stdout"] = result["stdout"]
     if "wavefunction" in result:
         extra_dict["wavefunction"] = result["wavefunction"]
 
@@ -1784,7 +1784,7 @@ def _dump_qcschema_output(f: TextIO, data: IOData) -> dict:
     if "stderr" in data.extra["output"]:
         output_dict["stderr"] = data.extra["output"]["stderr"]
     if "stdout" in data.extra["output"]:
-        output_dict["stderr"] = data.extra["output"]["stdout"]
+        output_dict["stdout"] = data.extra["output"]["stdout"]
     if "wavefunction" in data.extra["output"]:
         output_dict["wavefunction"] = data.extra["output"]["wavefunction"]
     output_dict["provenance"] = _dump_provenance(f, data, "input")
